@@ -81,11 +81,11 @@ func NewMemConsensus(id peer.ID, shared *Shared) *MemConsensus {
 	return &MemConsensus{ID: id, S: shared, readyCh: ch}
 }
 
-func (m *MemConsensus) SetClient(c *rpc.Client)          { m.rpcClient = c }
-func (m *MemConsensus) Shutdown(context.Context) error   { return nil }
+func (m *MemConsensus) SetClient(c *rpc.Client)               { m.rpcClient = c }
+func (m *MemConsensus) Shutdown(context.Context) error        { return nil }
 func (m *MemConsensus) Ready(context.Context) <-chan struct{} { return m.readyCh }
-func (m *MemConsensus) WaitForSync(context.Context) error { return nil }
-func (m *MemConsensus) Clean(context.Context) error      { return nil }
+func (m *MemConsensus) WaitForSync(context.Context) error     { return nil }
+func (m *MemConsensus) Clean(context.Context) error           { return nil }
 func (m *MemConsensus) Leader(context.Context) (peer.ID, error) {
 	return "", errors.New("no leader in mem consensus")
 }
